@@ -1,2 +1,253 @@
--- line-protocol driver stub (Cache); replaced when the model exists
-def main : IO Unit := IO.println "stub"
+/-
+Line-protocol driver for C09: replays the harness's operation lines (with what the harness
+observed about store reads) through the per-key LTS models `WideCache` and `SetCache`.
+
+Foreground operations fire the model's foreground steps; `commit` / `notify` fire the background
+steps of every key the batch mentions; evictions are fired lazily: a read that went to the store
+is admissible only if the model can evict the entry at that point (it is not pinned), a read that
+did not go to the store only if the model still has the entry.  Anything else prints
+`inadmissible-…` and shows up as a disagreement.
+
+usage: drv_cache [fix=snap] [fix=spill] [assert-safe]
+-/
+import QbiceVerif.Model.WideCache
+import QbiceVerif.Model.SetCache
+
+open QbiceVerif
+
+structure KeyRef where
+  kind : Nat      -- 0 single map, 1 dynamic map, 2 key-of-set map
+  key : Nat
+deriving BEq, Repr
+
+structure Drv where
+  cfg : SetCache.Cfg
+  assertSafe : Bool
+  thr : Nat := 1024
+  initW : List (Nat × Nat) := []
+  initD : List (Nat × Nat) := []
+  initS : List (Nat × List Nat) := []
+  hist : List Nat := []                 -- 0 begin, 1 submit, 2 commit (oldest first, reversed storage)
+  w : List (Nat × WideCache.State) := []
+  d : List (Nat × WideCache.State) := []
+  s : List (Nat × SetCache.State) := []
+  openKeys : List KeyRef := []
+  submittedKeys : List (List KeyRef) := []
+  committedKeys : List (List KeyRef) := []
+
+def lookup {α} (l : List (Nat × α)) (k : Nat) : Option α := (l.find? (·.1 == k)).map (·.2)
+def store {α} (l : List (Nat × α)) (k : Nat) (v : α) : List (Nat × α) :=
+  if l.any (·.1 == k) then l.map (fun p => if p.1 == k then (k, v) else p) else l ++ [(k, v)]
+
+def wideFires (s : WideCache.State) (evs : List WideCache.Ev) : Option WideCache.State :=
+  evs.foldlM (fun st e => (WideCache.fire st e).map (·.1)) s
+
+def setFires (s : SetCache.State) (evs : List SetCache.Ev) : Option SetCache.State :=
+  evs.foldlM (fun st e => (SetCache.fire st e).map (·.1)) s
+
+def histWide (h : List Nat) : List WideCache.Ev :=
+  h.reverse.map fun c => if c == 0 then .begin 0 else if c == 1 then .submit 0 else .commit
+def histSet (h : List Nat) : List SetCache.Ev :=
+  h.reverse.map fun c => if c == 0 then .begin else if c == 1 then .submit else .commit
+
+/-- state of a wide key, created on first mention by replaying the batch structure so far -/
+def getW (dr : Drv) (dyn : Bool) (k : Nat) : Option WideCache.State :=
+  match lookup (if dyn then dr.d else dr.w) k with
+  | some st => some st
+  | none => wideFires (WideCache.init (lookup (if dyn then dr.initD else dr.initW) k) 1) (histWide dr.hist)
+
+def putW (dr : Drv) (dyn : Bool) (k : Nat) (st : WideCache.State) : Drv :=
+  if dyn then { dr with d := store dr.d k st } else { dr with w := store dr.w k st }
+
+def getS (dr : Drv) (k : Nat) : Option SetCache.State :=
+  match lookup dr.s k with
+  | some st => some st
+  | none => setFires (SetCache.init dr.cfg dr.thr ((lookup dr.initS k).getD [])) (histSet dr.hist)
+
+def mention (dr : Drv) (r : KeyRef) : Drv :=
+  if dr.openKeys.contains r then dr else { dr with openKeys := dr.openKeys ++ [r] }
+
+def fmtOpt : Option Nat → String
+  | some v => s!"some {v}"
+  | none => "none"
+
+/-- insertion sort + dedup (sets are small or nearly sorted) -/
+def canon (l : List Nat) : List Nat := (l.toArray.qsort (· < ·)).toList.eraseDups
+
+def fmtSet (l : List Nat) : String :=
+  let v := canon l
+  if v.isEmpty then "-" else
+  let rec go (rest : List Nat) (lo hi : Nat) (acc : List String) : List String :=
+    match rest with
+    | [] => ((if hi > lo then s!"{lo}-{hi}" else s!"{lo}") :: acc).reverse
+    | x :: xs => if x == hi + 1 then go xs lo x acc
+                 else go xs x x ((if hi > lo then s!"{lo}-{hi}" else s!"{lo}") :: acc)
+  match v with
+  | [] => "-"
+  | x :: xs => ",".intercalate (go xs x x [])
+
+def parseObs (toks : List String) : List Nat :=
+  match toks.find? (·.startsWith "obs=") with
+  | some t => ((t.drop 4).toString.splitOn ",").map (·.toNat!)
+  | none => []
+
+/-- a `get` of a wide key that was observed to read the store `n` times -/
+def wideGet (st : WideCache.State) (n : Nat) : Except String (WideCache.State × Option Nat) := do
+  let mut cur := st
+  for _ in [0:n] do
+    match cur.entry with
+    | some e =>
+        if e.pin ≤ 0 then
+          match WideCache.fire cur .evict with
+          | some (s', _) => cur := s'
+          | none => throw "not-enabled evict"
+        else throw s!"inadmissible-miss pinned={e.pin}"
+    | none => pure ()
+    match wideFires cur [.probe 0, .sfEnter 0, .readDb 0, .fill 0, .sfLeave 0] with
+    | some s' => cur := s'
+    | none => throw "not-enabled fill-path"
+  match cur.entry with
+  | none => throw "inadmissible-hit"
+  | some _ =>
+      match WideCache.fire cur (.probe 0) with
+      | some (s', some r) => return (s', r)
+      | _ => throw "not-enabled probe"
+
+def nat? (s : String) : Option Nat := s.toNat?
+
+def step (dr : Drv) (line : String) : Drv × String :=
+  let toks := (line.trimAscii.toString.splitOn " ").filter (· ≠ "")
+  let bad := (dr, "bad-op")
+  let ne := (dr, "not-enabled")
+  match toks with
+  | "case" :: rest =>
+      let thr := match rest.find? (·.startsWith "thr=") with
+        | some t => (t.drop 4).toString.toNat?.getD 1024
+        | none => 1024
+      ({ cfg := dr.cfg, assertSafe := dr.assertSafe, thr := thr }, "ok")
+  | ["end"] => (dr, "ok")
+  | ["press", n] => if (nat? n).isSome then (dr, "ok") else bad
+  | ["init-w", k, v] =>
+      match nat? k, nat? v with
+      | some k, some v => ({ dr with initW := store dr.initW k v }, "ok")
+      | _, _ => bad
+  | ["init-d", k, t, v] =>
+      match nat? k, nat? t, nat? v with
+      | some k, some t, some v => ({ dr with initD := store dr.initD (2 * k + t) v }, "ok")
+      | _, _, _ => bad
+  | ["init-s", k, lo, hi] =>
+      match nat? k, nat? lo, nat? hi with
+      | some k, some lo, some hi => ({ dr with initS := store dr.initS k ((List.range (hi + 1 - lo)).map (· + lo)) }, "ok")
+      | _, _, _ => bad
+  | ["begin"] | ["submit"] | ["commit"] =>
+      let code := if toks == ["begin"] then 0 else if toks == ["submit"] then 1 else 2
+      let wev : WideCache.Ev := if code == 0 then .begin 0 else if code == 1 then .submit 0 else .commit
+      let sev : SetCache.Ev := if code == 0 then .begin else if code == 1 then .submit else .commit
+      let w' := dr.w.mapM fun (k, st) => (WideCache.fire st wev).map fun r => (k, r.1)
+      let d' := dr.d.mapM fun (k, st) => (WideCache.fire st wev).map fun r => (k, r.1)
+      let s' := dr.s.mapM fun (k, st) => (SetCache.fire st sev).map fun r => (k, r.1)
+      -- the structure itself must be well formed even when no key exists yet
+      let okStruct :=
+        if code == 0 then dr.hist.foldr (fun c (o : Int) => if c == 0 then o + 1 else if c == 1 then o - 1 else o) 0 == 0
+        else if code == 1 then dr.hist.foldr (fun c (o : Int) => if c == 0 then o + 1 else if c == 1 then o - 1 else o) 0 == 1
+        else dr.submittedKeys.length > 0
+      match w', d', s', okStruct with
+      | some w', some d', some s', true =>
+          let dr := { dr with w := w', d := d', s := s', hist := code :: dr.hist }
+          let dr :=
+            if code == 0 then { dr with openKeys := [] }
+            else if code == 1 then { dr with submittedKeys := dr.submittedKeys ++ [dr.openKeys], openKeys := [] }
+            else match dr.submittedKeys with
+              | ks :: rest => { dr with submittedKeys := rest, committedKeys := dr.committedKeys ++ [ks] }
+              | [] => dr
+          (dr, "ok")
+      | _, _, _, _ => ne
+  | ["notify"] =>
+      match dr.committedKeys with
+      | [] => ne
+      | ks :: rest =>
+          let r := ks.foldlM (fun (dr : Drv) (r : KeyRef) =>
+            if r.kind == 2 then
+              match lookup dr.s r.key with
+              | some st => (SetCache.fire st .notify).map fun x => { dr with s := store dr.s r.key x.1 }
+              | none => none
+            else
+              match lookup (if r.kind == 1 then dr.d else dr.w) r.key with
+              | some st => (WideCache.fire st .notify).map fun x => putW dr (r.kind == 1) r.key x.1
+              | none => none) { dr with committedKeys := rest }
+          match r with
+          | some dr => (dr, "ok")
+          | none => ne
+  | op :: args =>
+      let nums := (args.filter (fun a => !a.startsWith "obs=")).map nat?
+      if nums.any (·.isNone) then bad else
+      let nums := nums.map (·.getD 0)
+      let obs := parseObs args
+      let wideWrite (dyn : Bool) (k : Nat) (v : Option Nat) : Drv × String :=
+        match getW dr dyn k with
+        | none => ne
+        | some st =>
+            match wideFires st [.put 0 v, .cacheWrite 0] with
+            | some st' => (mention (putW dr dyn k st') ⟨if dyn then 1 else 0, k⟩, "ok")
+            | none => ne
+      let wideRead (dyn : Bool) (k : Nat) : Drv × String :=
+        match getW dr dyn k, obs with
+        | some st, [n] =>
+            match wideGet st n with
+            | .ok (st', r) => (putW dr dyn k st', fmtOpt r)
+            | .error e => (dr, e)
+        | none, _ => ne
+        | _, _ => bad
+      let setWrite (k lo hi : Nat) (ins : Bool) : Drv × String :=
+        match getS dr k with
+        | none => ne
+        | some st =>
+            let r := (List.range (hi + 1 - lo)).foldlM (fun st i => SetCache.write st (lo + i) ins) st
+            match r with
+            | some st' => (mention { dr with s := store dr.s k st' } ⟨2, k⟩, "ok")
+            | none => ne
+      match op, nums with
+      | "w-ins", [k, v] => wideWrite false k (some v)
+      | "w-rem", [k] => wideWrite false k none
+      | "w-get", [k] => wideRead false k
+      | "d-ins", [k, t, v] => if t < 2 then wideWrite true (2 * k + t) (some v) else bad
+      | "d-rem", [k, t] => if t < 2 then wideWrite true (2 * k + t) none else bad
+      | "d-get", [k, t] => if t < 2 then wideRead true (2 * k + t) else bad
+      | "s-ins", [k, x] => setWrite k x x true
+      | "s-rem", [k, x] => setWrite k x x false
+      | "s-fill", [k, lo, hi] => setWrite k lo hi true
+      | "s-clear", [k, lo, hi] => setWrite k lo hi false
+      | "s-get", [k] =>
+          match getS dr k, obs with
+          | some st, [f, sc] =>
+              let st? : Except String SetCache.State :=
+                if f == 0 && sc == 0 then
+                  match st.entry with | some (.inMem _) => .ok st | _ => .error "inadmissible-in-memory-hit"
+                else if f == 0 && sc == 1 then
+                  match st.entry with | some .tooLarge => .ok st | _ => .error "inadmissible-streaming-hit"
+                else if f == 1 && sc == 1 then .ok { st with entry := none }   -- evictEntry is always enabled
+                else .error "inadmissible-obs"
+              match st? with
+              | .error e => (dr, e)
+              | .ok st1 =>
+                  if dr.assertSafe && !SetCache.getSafe st1 then (dr, "unsafe-get")
+                  else
+                    let (st2, out) := SetCache.get st1
+                    ({ dr with s := store dr.s k st2 }, fmtSet out)
+          | none, _ => ne
+          | _, _ => bad
+      | _, _ => bad
+  | [] => bad
+
+partial def loop (h : IO.FS.Stream) (out : IO.FS.Stream) (dr : Drv) : IO Unit := do
+  let line ← h.getLine
+  if line.isEmpty then return
+  let (dr', ans) := step dr line
+  out.putStrLn ans
+  loop h out dr'
+
+def main (args : List String) : IO Unit := do
+  let cfg : SetCache.Cfg := ⟨args.contains "fix=snap", args.contains "fix=spill"⟩
+  let stdin ← IO.getStdin
+  let stdout ← IO.getStdout
+  loop stdin stdout { cfg := cfg, assertSafe := args.contains "assert-safe" }
